@@ -11,16 +11,17 @@ git -C /repo worktree add -q --detach "$WT" HEAD || exit 2
 cleanup() { git -C /repo worktree remove --force "$WT" 2>/dev/null; rm -rf /tmp/mut-$$; }
 trap cleanup EXIT
 cd "$WT"
+RUN=$(grep -o 'func Test[A-Za-z0-9_]*' "$DIR/demo_test.go" 2>/dev/null | sed 's/func //' | paste -sd'|')
 if [ -n "$DEMOPKG" ]; then
   cp "$DIR/demo_test.go" "$WT/$DEMOPKG/zz_demo_test.go"
   echo "== demo WITHOUT the change"
-  timeout 600 go test -count=1 "$@" -run 'Seed|Demo|Mutation' "./$DEMOPKG/" 2>&1 | tail -3
+  timeout 600 go test -count=1 "$@" -run "^($RUN)\$" "./$DEMOPKG/" 2>&1 | tail -3
 fi
 git apply "$DIR/patch.diff" || { echo "PATCH DOES NOT APPLY"; exit 3; }
 echo "== build"; go build ./... && go build -tags verif ./... && echo build-ok
 if [ -n "$DEMOPKG" ]; then
   echo "== demo WITH the change"
-  timeout 600 go test -count=1 "$@" -run 'Seed|Demo|Mutation' "./$DEMOPKG/" 2>&1 | tail -3
+  timeout 600 go test -count=1 "$@" -run "^($RUN)\$" "./$DEMOPKG/" 2>&1 | tail -3
   rm -f "$WT/$DEMOPKG/zz_demo_test.go"
 fi
 echo "== existing tests with the change"
